@@ -391,3 +391,8 @@ LOOP_THMS = {
 for _pid, _ts in LOOP_THMS.items():
     PROPS[_pid]["extra_modules"] = sorted(set(PROPS[_pid].get("extra_modules", []) + ["Rough.Props.Loop"]))
     PROPS[_pid]["theorems"] = PROPS[_pid]["theorems"] + ["Rough.Props.Loop." + t for t in _ts]
+
+# C20: Display/Debug of the key-holding objects are scanned in the `ltk` stream
+PROPS["C20"]["streams"] = PROPS["C20"]["streams"] + [{"args": ["ltk"], "shards_quick": 4, "shards_thorough": 8}]
+PROPS["C20"]["ops"] = PROPS["C20"]["ops"] + ["ltk"]
+PROPS["C20"]["rule"] += "; Display and Debug of MsgSigner (empty and pending buffer), LongTermKey and OnlineKey for every seed of the `ltk` stream are scanned with the same patterns"
